@@ -298,28 +298,47 @@ Proof.
   apply eq_true_iff_eq. rewrite gate_iff, condsb_iff. reflexivity.
 Qed.
 
+(* before 2038 an id that passes the time window is below the int64 maximum *)
+Definition clock_bound : Z := 2147483616 * 1000000000.   (* (2^31 - 32) s *)
+Lemma window_id_bound now id :
+  now < clock_bound -> id_time_lib id <= now + 30 * 1000000000 -> id < c_minID_init.
+Proof.
+  unfold clock_bound, c_minID_init. intros Hn Hw. pose proof (id_time_lib_ge_sec id) as B.
+  Z.to_euclidean_division_equations. lia.
+Qed.
+
 Lemma accept_run_refines N session h : forall buf S,
-  (0 < N)%nat -> Forall (fun nm => d_id (snd nm) < c_minID_init) h -> R N buf S ->
+  (0 < N)%nat -> Forall (fun nm => fst nm < clock_bound) h -> R N buf S ->
   accept_run session buf h = spec_accept_run N session S h.
 Proof.
   induction h as [|[now m] t IH]; intros buf S HN Hh HR; simpl; [reflexivity|].
   inversion Hh as [|? ? Hm Ht]; subst. simpl in Hm.
   unfold accept, spec_accept. rewrite gate_eq.
   destruct (condsb session now m) eqn:C.
-  - apply condsb_iff in C. destruct C as (_ & _ & Ty & _).
+  - apply condsb_iff in C. destruct C as (_ & _ & Ty & (_ & Hw) & _).
     pose proof (server_typed_pos _ Ty) as Hpos.
+    pose proof (window_id_bound now (d_id m) Hm Hw) as Hmax.
     pose proof (consume_refines N buf S (d_id m) HN ltac:(lia) HR) as H.
     destruct (consume buf (d_id m)) as [b buf']. destruct (spec_consume N S (d_id m)) as [b' S'].
     destruct H as (-> & HR'). f_equal. apply IH; assumption.
   - f_equal. apply IH; assumption.
 Qed.
 
-(* C07_pipeline, history form: for every history of incoming frames the set of messages that
-   reach handleMessage is exactly the set the specification accepts. *)
+(* C07_pipeline, history form: for every history of incoming frames processed at clock
+   readings before 2038 the set of messages that reach handleMessage is exactly the set the
+   specification accepts.  The history is in Consume order: readLoop handles every frame in
+   its own goroutine, and MessageIDBuf.Consume (under its mutex) is the only step that
+   touches shared state, so every concurrent execution is one of these histories. *)
 Theorem pipeline_refines N session h :
-  (0 < N)%nat -> Forall (fun nm => d_id (snd nm) < c_minID_init) h ->
+  (0 < N)%nat -> Forall (fun nm => fst nm < clock_bound) h ->
   accept_run session (buf_init N) h = spec_accept_run N session [] h.
 Proof. intros. apply accept_run_refines; try assumption. apply R_init. Qed.
+
+Theorem pipeline_refines_call_site session h :
+  Forall (fun nm => fst nm < clock_bound) h ->
+  accept_run session (buf_init (Z.to_nat c_msgIDBufSize)) h =
+  spec_accept_run (Z.to_nat c_msgIDBufSize) session [] h.
+Proof. intros. apply pipeline_refines; [vm_compute; repeat constructor | assumption]. Qed.
 
 (* C07_pipeline, single step: the specification accepts a message iff all conditions of the
    property hold. *)
@@ -345,4 +364,8 @@ Qed.
 (* the two repaired defects on the regenerated model *)
 Lemma padding_below_12_rejected :
   decrypt_ok {| d_auth := true; d_session := 1; d_id := 5; d_len := 8; d_total := 16 |} = false.
+Proof. vm_compute. reflexivity. Qed.
+
+Lemma stale_rejected :
+  check_message_id (1704067200 * 1000000000) ((1704067200 - 302) * 4294967296 + 2147483645) = false.
 Proof. vm_compute. reflexivity. Qed.
